@@ -83,9 +83,41 @@ pub fn run(s: &Session) {
     s.set_rule("TxForge transactions without certificates/withdrawals/treasury/donation under balanced and almost-balanced \
         edits (lovelace moved into or out of the change output, mint without output, burn of an asset absent from the inputs, \
         asset from nowhere, a burn compensated by an output of 2^64-n so that it balances only in wrapped arithmetic, quantities \
-        near 2^64, arbitrary fee), re-signed; all post-Byron eras. Oracle: accepted => for ada and every asset spent + minted = \
-        produced + fee in unbounded integers read through cborx. Non-trivial = an accepted case; distinct = distinct recipe");
+        near 2^64, arbitrary fee), re-signed; all post-Byron eras; plus self-signed Byron transactions (public-key and redeem inputs) that over- and under-pay. Oracle: accepted => for ada and every asset spent + minted = \
+        produced + fee in unbounded integers read through cborx (Byron: inputs - outputs >= summand + multiplier * body size, and >= 0 for redeem-only transactions). Non-trivial = an accepted case; distinct = distinct recipe");
     s.assume("a panic during validation is counted and left to C33 (this build has overflow checks on, as the project's test profile)");
+    s.forall("byron-fee-balance", s.pick(60_000, 1_000_000), crate::c33::byron_spec, |b, obs| {
+        let f = match crate::byron::forge(b) {
+            Ok(f) => f,
+            Err(_) => {
+                obs.discard();
+                return Ok(());
+            }
+        };
+        let r = match pvkit::panics::guarded(|| crate::byron::validate(&f)) {
+            Ok(r) => r,
+            Err(_) => {
+                obs.class("byron:panicked (C33)");
+                return Ok(());
+            }
+        };
+        match r {
+            None => obs.discard(),
+            Some(Err(_)) => obs.class("byron:rejected"),
+            Some(Ok(())) => {
+                obs.class(if f.all_redeem { "byron:accepted:redeem-only" } else { "byron:accepted" });
+                // weakest reading of "the minimum fee": linear in the size of the transaction body alone
+                // (the validator itself uses body + witnesses, the node body + witnesses + framing);
+                // a transaction spending only redeem addresses pays no fee but must still not create value
+                let min_fee: u128 = if f.all_redeem { 0 } else { crate::byron::SUMMAND as u128 + crate::byron::MULTIPLIER as u128 * f.tx.len() as u128 };
+                pv_ensure!(f.sum_in >= f.sum_out && f.sum_in - f.sum_out >= min_fee,
+                    if f.all_redeem { "byron-redeem-creates-value" } else { "byron-fee-below-minimum-accepted" },
+                    "accepted although inputs hold {} and outputs {} lovelace (minimum fee {})", f.sum_in, f.sum_out, min_fee);
+                obs.nontrivial();
+            }
+        }
+        Ok(())
+    });
     s.forall(
         "value-conservation",
         s.pick(60_000, 1_500_000),
